@@ -236,6 +236,14 @@ class SpecRegistry:
                 raise PyvcUnsupported(f"virtual dispatch of {root}.{method}: member {m} files reports (fork needed)")
         return res, st
 
+    def loop(self, key, kind, ordinal, **kw):
+        """inductive invariant for the `ordinal`-th loop of kind 'while'/'for'/'reduce' in function `key`"""
+        self.loop_specs[(key, kind, ordinal)] = kw
+
+    def attr(self, base, name, ty):
+        """type of a plain attribute of an abstract object (class with __init__, no field annotations)"""
+        self._iface_ret[(base, "." + name)] = ty
+
     def lib(self, name, fn):
         self._lib.setdefault(name, []).append(fn)
 
